@@ -53,6 +53,21 @@ func (r *recorder) add(n int) {
 	r.mu.Unlock()
 }
 
+func (r *recorder) n() int {
+	r.mu.Lock()
+	defer r.mu.Unlock()
+	return len(r.samples)
+}
+
+func (r *recorder) total() int64 {
+	r.mu.Lock()
+	defer r.mu.Unlock()
+	if len(r.samples) == 0 {
+		return 0
+	}
+	return r.samples[len(r.samples)-1].cum
+}
+
 // prefixExcess returns the largest cum(t) - (B + R*t + S) over all samples (<= 0 means the
 // envelope from the start of the run holds) and the sample where it occurs.
 func (r *recorder) prefixExcess(rate int64, conns int) (float64, sample) {
@@ -261,6 +276,9 @@ type tcase struct {
 	conns    int
 	size     int // per connection
 	limited  bool // is this direction limited?
+	// capT > 0: the transfer is abandoned capT after the start (it would take far longer at the
+	// configured rate); the envelope is checked on what had been delivered until then
+	capT time.Duration
 }
 
 type outcome struct {
@@ -268,6 +286,7 @@ type outcome struct {
 	rec       *recorder
 	err       string
 	corrupt   string
+	capped    bool
 }
 
 func runCase(run *lib.Run, w *world, tc tcase, idx int, r *lib.RNG) outcome {
@@ -329,8 +348,24 @@ func runCase(run *lib.Run, w *world, tc tcase, idx int, r *lib.RNG) outcome {
 			defer st.Close()
 			c := st.C
 			c.SetDeadline(time.Now().Add(120 * time.Second))
+			if tc.capT > 0 {
+				c.SetDeadline(t0.Add(tc.capT))
+			}
+			isCap := func(err error) bool {
+				ne, ok := err.(net.Error)
+				if tc.capT > 0 && ok && ne.Timeout() {
+					mu.Lock()
+					out.capped = true
+					mu.Unlock()
+					return true
+				}
+				return false
+			}
 			buf := make([]byte, 64<<10)
 			readStream := func(n int, rec *recorder, rd io.Reader) {
+				if tc.capT > 0 {
+					c.SetDeadline(t0.Add(tc.capT))
+				}
 				off := 0
 				for off < n {
 					k, err := rd.Read(buf)
@@ -344,7 +379,7 @@ func runCase(run *lib.Run, w *world, tc tcase, idx int, r *lib.RNG) outcome {
 						}
 					}
 					if err != nil {
-						if off < n {
+						if off < n && !isCap(err) {
 							fail(fmt.Sprintf("download ended after %d of %d bytes: %v", off, n, err))
 						}
 						return
@@ -352,6 +387,9 @@ func runCase(run *lib.Run, w *world, tc tcase, idx int, r *lib.RNG) outcome {
 				}
 			}
 			writeStream := func(n int, rec *recorder) bool {
+				if tc.capT > 0 {
+					c.SetDeadline(t0.Add(tc.capT))
+				}
 				for off := 0; off < n; {
 					k := len(buf)
 					if k > n-off {
@@ -359,7 +397,9 @@ func runCase(run *lib.Run, w *world, tc tcase, idx int, r *lib.RNG) outcome {
 					}
 					lib.FillStream(buf[:k], off, key)
 					if _, err := c.Write(buf[:k]); err != nil {
-						fail("upload write: " + err.Error())
+						if !isCap(err) {
+							fail("upload write: " + err.Error())
+						}
 						return false
 					}
 					off += k
@@ -416,7 +456,7 @@ func runCase(run *lib.Run, w *world, tc tcase, idx int, r *lib.RNG) outcome {
 						return
 					}
 					done := make([]byte, 5)
-					if _, err := io.ReadFull(c, done); err != nil {
+					if _, err := io.ReadFull(c, done); err != nil && !isCap(err) {
 						fail("tunnel upload ack: " + err.Error())
 					}
 					if v, ok := w.bad.Load(ks); ok {
@@ -467,6 +507,11 @@ func main() {
 		// a very low limit: one 32 KiB copy buffer costs more than a second of tokens
 		{name: "R24K-tunnel-dl", r: 24 << 10, dir: "download", via: "tunnel", conns: 1, size: 4*MiB + 240<<10, limited: true},
 		{name: "W24K-tunnel-ul", w: 24 << 10, dir: "upload", via: "tunnel", conns: 1, size: 4*MiB + 240<<10, limited: true},
+		// waits of many seconds per copy buffer / deep reservation queues; abandoned after 9 s
+		{name: "R8K-tunnel-dl-capped", r: 8 << 10, dir: "download", via: "tunnel", conns: 1, size: 6 * MiB, limited: true, capT: 9 * time.Second},
+		{name: "W8K-tunnel-ul-capped", w: 8 << 10, dir: "upload", via: "tunnel", conns: 1, size: 6 * MiB, limited: true, capT: 9 * time.Second},
+		{name: "R512K-64conns-dl-capped", r: 512 << 10, dir: "download", via: "http", conns: 64, size: 256 << 10, limited: true, capT: 9 * time.Second},
+		{name: "W512K-64conns-ul-capped", w: 512 << 10, dir: "upload", via: "tunnel", conns: 64, size: 256 << 10, limited: true, capT: 9 * time.Second},
 	}
 	if !run.Quick() {
 		// very low limits: a single copy buffer costs more than a second of tokens
@@ -540,7 +585,11 @@ func main() {
 		total := int64(tc.size * tc.conns)
 		wit := map[string]any{"case": tc.name, "read_limit": tc.r, "write_limit": tc.w, "direction": tc.dir, "via": tc.via, "connections": tc.conns, "bytes_total": total, "duration_s": o.dur.Seconds()}
 		run.Sample(wit)
-		fmt.Printf("transfer %-22s total=%d dur=%.2fs samples=%d err=%q\n", tc.name, total, o.dur.Seconds(), len(o.rec.samples), o.err)
+		fmt.Printf("transfer %-22s total=%d dur=%.2fs samples=%d capped=%v err=%q\n", tc.name, total, o.dur.Seconds(), o.rec.n(), o.capped, o.err)
+		if o.capped {
+			run.Count("capped_transfers", 1)
+			total = o.rec.total()
+		}
 		if o.err != "" {
 			run.Violation("transfer-failed:"+tc.dir+":"+tc.via, fmt.Sprintf("%s: %s", tc.name, o.err), i, wit)
 			continue
@@ -559,7 +608,7 @@ func main() {
 			run.Count("limited_transfers_checked", 1)
 			ex, s := o.rec.prefixExcess(lim, tc.conns)
 			wit["min_duration_s"] = (float64(total) - float64(burst(lim)) - slackFor(tc.conns)) / float64(lim)
-			wit["samples"] = len(o.rec.samples)
+			wit["samples"] = o.rec.n()
 			if ex > 0 {
 				run.Violation(fmt.Sprintf("rate-exceeded:%s:%s:x%d", tc.dir, tc.via, tc.conns), fmt.Sprintf("%s: %d bytes had been delivered %.3f s after the start, %.0f bytes above burst(%d) + %d B/s * t + slack", tc.name, s.cum, s.t.Seconds(), ex, burst(lim), lim), i, wit)
 			}
